@@ -102,6 +102,15 @@ CHECKS = {
              'through the API and displayed through the real pipeline; every enum-typed argument is tried with all entries, '
              'unions, 0, -1, max+1, 2^31; synthetic versions 1..3/1..4 are loaded in every permutation.',
         ref='3/C07', engine='PROD'),
+    'C19': dict(
+        technique='exhaustive product enumeration of argument vectors (units: flags, clusters, valued options with '
+                  'hostile values, markers, forwarded look-alikes) on the real parse_args / run_gdb against a reference '
+                  'splitter, plus a slice through the real command line (real child, real gdb -batch)',
+        text='All vectors of <=3/<=4 units over 35 units with at most two markers: outcome class (error / usage / ok), '
+             'mode, forwarded words verbatim, own words, flag effects and -f/-b matchers are compared with the reference; in '
+             'GDB mode the recorded gdb command must end with the forwarded words and its python command must set sys.argv '
+             'to the own words word for word.',
+        ref='3/C19', engine='PROD'),
 }
 
 NOT_YET = 'check under construction in this round; will be claimed when mc/props/%s.py lands'
